@@ -24,6 +24,20 @@ structure PSt where
 
 abbrev P := StateT PSt (Except PErr)
 
+/-- `maxDepth` = marshal.c's MAX_MARSHAL_STACK_DEPTH (2000).  `strict` adds the well-formedness
+    guards of the simulation theorem — conditions every stream written by a CPython satisfies
+    and under which marshal.c's own later checks (PyCode_New / _PyCode_Validate / intern_strings)
+    accept the code object: the ASCII type codes hold bytes < 0x80; before 3.11 `co_varnames` is a
+    tuple of text; from 3.11 the locals-plus names are a tuple, their kinds a bytes object, and
+    a FREE kind is neither LOCAL nor CELL; and (the ghost flag `txt`, set only while the
+    `co_varnames` of Python 3 bytecode is read) no 's' bytes object occurs inside `co_varnames`.  `loads` (used for validation against the
+    interpreters) runs with `strict := false`. -/
+structure SCfg where
+  strict : Bool
+  maxDepth : Nat
+
+def cpython : SCfg := { strict := false, maxDepth := 2000 }
+
 def era (v : List Nat) : Nat :=
   if verGeL v 3 4 then 4 else if verGeL v 3 0 then 3 else if verGeL v 2 5 then 2 else if verGeL v 2 4 then 1 else 0
 
@@ -54,39 +68,49 @@ def insert (v : V) (i : Option Nat) : P V := do
 
 def latin1 (b : Bytes) : V := .str b
 
+/-- an ASCII-typed string ('a' 'A' 'z' 'Z'): one code point per byte; the strict guard wants real ASCII -/
+def asciiStr (sc : SCfg) (b : Bytes) : P V :=
+  if sc.strict && !(b.all (· < 0x80)) then throw .badData else pure (latin1 b)
+
+def isStrV : V → Bool
+  | .str _ => true
+  | _ => false
+
+def kindOK (x : Nat) : Bool := x &&& 0x80 = 0 || (x &&& 0x20 = 0 && x &&& 0x40 = 0)
+
 mutual
-def rObj (e : Nat) (ver : List Nat) : Nat → Nat → P (Option V)      -- none = NULL
-  | 0, _ => throw .outOfFuel
-  | fuel + 1, depth => do
-    if depth > 2000 then throw .valueError            -- MAX_MARSHAL_STACK_DEPTH
+def rObj (sc : SCfg) (e : Nat) (ver : List Nat) : Nat → Nat → Bool → P (Option V)      -- none = NULL
+  | 0, _, _ => throw .outOfFuel
+  | fuel + 1, depth, txt => do
+    if depth > sc.maxDepth then throw .valueError else do      -- MAX_MARSHAL_STACK_DEPTH
     let b ← u8
     let flag := e = 4 && b &&& 0x80 ≠ 0
     let ty := if e = 4 then b &&& 0x7F else b
-    let some_ (x : P V) : P (Option V) := do let v ← x; pure (some v)
-    match ty with
-    | 48 => pure none
-    | 78 => pure (some .none)
-    | 70 => pure (some .fls)
-    | 84 => pure (some .tru)
-    | 83 => pure (some .stopIter)
-    | 46 => pure (some .ellipsis)
-    | 105 => some_ do let i ← i32; ref (.int i) flag
-    | 73 => if e = 4 then throw .badData else some_ do
+    -- TYPE_NULL ends a dict; marshal.c never writes it with FLAG_REF (strict guard)
+    if ty = 48 then (if sc.strict && flag then throw .badData else pure none) else do
+    let v : V ← (match ty with
+    | 78 => pure .none
+    | 70 => pure .fls
+    | 84 => pure .tru
+    | 83 => pure .stopIter
+    | 46 => pure .ellipsis
+    | 105 => do let i ← i32; ref (.int i) flag
+    | 73 => if e = 4 then throw .badData else do
         let b ← rd 8; ref (.int (signedOf 8 (leNat b))) flag
-    | 108 => some_ do
+    | 108 => do
         let n ← i32
         let ds ← digits n.natAbs 0 0
         -- marshal.c rejects a most significant digit of zero ("unnormalized long data")
         let v := if n < 0 then -ds.1 else ds.1
         if n ≠ 0 ∧ ds.2 = 0 then throw .badData
-        ref (if e ≥ 3 then .int v else .long v) flag
-    | 102 => some_ do let k ← u8; let s ← rd k; ref (.floatText s) flag
-    | 103 => if e < 2 then throw .badData else some_ do let b ← rd 8; ref (.float (leNat b)) flag
-    | 120 => some_ do let k1 ← u8; let s1 ← rd k1; let k2 ← u8; let s2 ← rd k2; ref (.complexText s1 s2) flag
-    | 121 => if e < 2 then throw .badData else some_ do
+        else ref (if e ≥ 3 then .int v else .long v) flag
+    | 102 => do let k ← u8; let s ← rd k; ref (.floatText s) flag
+    | 103 => if e < 2 then throw .badData else do let b ← rd 8; ref (.float (leNat b)) flag
+    | 120 => do let k1 ← u8; let s1 ← rd k1; let k2 ← u8; let s2 ← rd k2; ref (.complexText s1 s2) flag
+    | 121 => if e < 2 then throw .badData else do
         let r ← rd 8; let i ← rd 8; ref (.complex (leNat r) (leNat i)) flag
-    | 115 => some_ do let n ← size32; let s ← rd n; ref (.bytes s) flag
-    | 116 => if e = 0 ∨ e = 3 then throw .badData else some_ do
+    | 115 => if sc.strict && txt then throw .badData else do let n ← size32; let s ← rd n; ref (.bytes s) flag
+    | 116 => if e = 0 ∨ e = 3 then throw .badData else do
         let n ← size32; let s ← rd n
         if e = 4 then
           match Utf8.decodeSurrogatePass s with
@@ -95,13 +119,13 @@ def rObj (e : Nat) (ver : List Nat) : Nat → Nat → P (Option V)      -- none 
         else do
           modify fun st => { st with strs := st.strs ++ [.bytes s] }
           pure (.bytes s)
-    | 82 => if !(e = 1 ∨ e = 2) then throw .badData else some_ do
+    | 82 => if !(e = 1 ∨ e = 2) then throw .badData else do
           let n ← i32; let st ← get
-          if n < 0 then throw .badData
+          if n < 0 then throw .badData else
           match st.strs[n.toNat]? with
           | some v => pure v
           | none => throw .badData
-    | 117 => some_ do
+    | 117 => do
         let n ← size32; let s ← rd n
         if e ≥ 3 then
           match Utf8.decodeSurrogatePass s with
@@ -111,92 +135,93 @@ def rObj (e : Nat) (ver : List Nat) : Nat → Nat → P (Option V)      -- none 
           match Utf8.decodeSurrogatePass s with       -- Python 2's UTF-8 decoder lets surrogates through
           | some _ => pure (.u2 s)
           | none => throw .valueError
-    | 97 => if e < 4 then throw .badData else some_ do let n ← size32; let s ← rd n; ref (latin1 s) flag
-    | 65 => if e < 4 then throw .badData else some_ do let n ← size32; let s ← rd n; ref (latin1 s) flag
-    | 122 => if e < 4 then throw .badData else some_ do let n ← u8; let s ← rd n; ref (latin1 s) flag
-    | 90 => if e < 4 then throw .badData else some_ do let n ← u8; let s ← rd n; ref (latin1 s) flag
-    | 41 => if e < 4 then throw .badData else some_ do
+    | 97 => if e < 4 then throw .badData else do let n ← size32; let s ← rd n; let v ← asciiStr sc s; ref v flag
+    | 65 => if e < 4 then throw .badData else do let n ← size32; let s ← rd n; let v ← asciiStr sc s; ref v flag
+    | 122 => if e < 4 then throw .badData else do let n ← u8; let s ← rd n; let v ← asciiStr sc s; ref v flag
+    | 90 => if e < 4 then throw .badData else do let n ← u8; let s ← rd n; let v ← asciiStr sc s; ref v flag
+    | 41 => if e < 4 then throw .badData else do
         let n ← u8
         let i ← reserve flag
-        let xs ← items e ver fuel depth n
+        let xs ← items sc e ver fuel depth txt n
         insert (.tuple xs) i
-    | 40 => some_ do
+    | 40 => do
         let n ← size32
         let i ← reserve flag
-        let xs ← items e ver fuel depth n
+        let xs ← items sc e ver fuel depth txt n
         insert (.tuple xs) i
-    | 91 => some_ do
+    | 91 => do
         let n ← size32
         let i ← reserve flag
-        let xs ← items e ver fuel depth n
+        let xs ← items sc e ver fuel depth txt n
         insert (.list xs) i
-    | 60 => if e = 0 then throw .badData else some_ do
+    | 60 => if e = 0 then throw .badData else do
         let n ← size32
         let i ← reserve flag
-        let xs ← items e ver fuel depth n
+        let xs ← items sc e ver fuel depth txt n
         insert (.set xs) i
-    | 62 => if e = 0 then throw .badData else some_ do
+    | 62 => if e = 0 then throw .badData else do
         let n ← size32
         let i ← reserve flag
-        let xs ← items e ver fuel depth n
+        let xs ← items sc e ver fuel depth txt n
         insert (.fset xs) i
-    | 123 => some_ do
+    | 123 => do
         let i ← reserve flag
-        let kvs ← dictItems e ver fuel depth
+        let kvs ← dictItems sc e ver fuel depth txt
         insert (.dict kvs) i
-    | 114 => if e < 4 then throw .badData else some_ do
+    | 114 => if e < 4 then throw .badData else do
         let n ← i32; let st ← get
-        if n < 0 then throw .badData
+        if n < 0 then throw .badData else
         match st.refs[n.toNat]? with
         | some (some v) => pure v
         | _ => throw .badData
-    | 99 => some_ (code e ver fuel depth flag)
-    | _ => throw .badData
+    | 99 => code sc e ver fuel depth flag
+    | _ => throw .badData)
+    pure (some v)
 
 def digits : Nat → Nat → Int → P (Int × Int)        -- (value, last digit read)
   | 0, _, acc => pure (acc, 1)
   | k + 1, j, acc => do
     let d ← i16
     if d < 0 ∨ d > 32767 then throw .badData
-    if k = 0 then pure (acc + d * (2 : Int) ^ (j * 15), d)
+    else if k = 0 then pure (acc + d * (2 : Int) ^ (j * 15), d)
     else digits k (j + 1) (acc + d * (2 : Int) ^ (j * 15))
 
-def items (e : Nat) (ver : List Nat) : Nat → Nat → Nat → P (List V)
-  | 0, _, _ => throw .outOfFuel
-  | _, _, 0 => pure []
-  | fuel + 1, depth, n + 1 => do
-    let x ← rObj e ver fuel (depth + 1)
+def items (sc : SCfg) (e : Nat) (ver : List Nat) : Nat → Nat → Bool → Nat → P (List V)
+  | 0, _, _, _ => throw .outOfFuel
+  | _, _, _, 0 => pure []
+  | fuel + 1, depth, txt, n + 1 => do
+    let x ← rObj sc e ver fuel (depth + 1) txt
     match x with
     | none => throw .badData                       -- "NULL object in marshal data for tuple"
     | some v => do
-      let xs ← items e ver fuel depth n
+      let xs ← items sc e ver fuel depth txt n
       pure (v :: xs)
 
-def dictItems (e : Nat) (ver : List Nat) : Nat → Nat → P (List (V × V))
-  | 0, _ => throw .outOfFuel
-  | fuel + 1, depth => do
-    let k ← rObj e ver fuel (depth + 1)
+def dictItems (sc : SCfg) (e : Nat) (ver : List Nat) : Nat → Nat → Bool → P (List (V × V))
+  | 0, _, _ => throw .outOfFuel
+  | fuel + 1, depth, txt => do
+    let k ← rObj sc e ver fuel (depth + 1) txt
     match k with
     | none => pure []
     | some kv => do
-      let v ← rObj e ver fuel (depth + 1)
+      let v ← rObj sc e ver fuel (depth + 1) txt
       match v with
-      | none => pure []
+      | none => if sc.strict then throw .badData else pure []     -- a NULL value is never written
       | some vv => do
-        let rest ← dictItems e ver fuel depth
+        let rest ← dictItems sc e ver fuel depth txt
         pure ((kv, vv) :: rest)
 
-def obj (e : Nat) (ver : List Nat) (fuel depth : Nat) : P V := do
+def obj (sc : SCfg) (e : Nat) (ver : List Nat) (fuel depth : Nat) (txt : Bool) : P V := do
   match fuel with
   | 0 => throw .outOfFuel
   | f + 1 =>
-    let x ← rObj e ver f (depth + 1)
+    let x ← rObj sc e ver f (depth + 1) txt
     match x with
     | some v => pure v
     | none => throw .badData
 
 /-- code object layouts, from the documented history of PyCode_New / marshal.c -/
-def code (e : Nat) (ver : List Nat) : Nat → Nat → Bool → P V
+def code (sc : SCfg) (e : Nat) (ver : List Nat) : Nat → Nat → Bool → P V
   | 0, _, _ => throw .outOfFuel
   | fuel + 1, depth, flag => do
     let slot ← reserve flag
@@ -208,20 +233,22 @@ def code (e : Nat) (ver : List Nat) : Nat → Nat → Bool → P V
     let nlocals ← if ge 3 11 then pure 0 else if ge 1 3 then int_ else pure 0
     let stacksize ← if ge 1 5 then int_ else pure 0
     let flags ← if ge 1 3 then int_ else pure 0
-    let co ← obj e ver fuel depth
-    let consts ← obj e ver fuel depth
-    let names ← obj e ver fuel depth
+    let co ← obj sc e ver fuel depth false
+    let consts ← obj sc e ver fuel depth false
+    let names ← obj sc e ver fuel depth false
     if ge 3 11 then do
-      let lpn ← obj e ver fuel depth
-      let lpk ← obj e ver fuel depth
-      let filename ← obj e ver fuel depth
-      let name ← obj e ver fuel depth
-      let qualname ← obj e ver fuel depth
+      let lpn ← obj sc e ver fuel depth false
+      let lpk ← obj sc e ver fuel depth false
+      let filename ← obj sc e ver fuel depth false
+      let name ← obj sc e ver fuel depth false
+      let qualname ← obj sc e ver fuel depth false
       let first ← i32
-      let lt ← obj e ver fuel depth
-      let et ← obj e ver fuel depth
+      let lt ← obj sc e ver fuel depth false
+      let et ← obj sc e ver fuel depth false
       let ns : List V := match lpn with | .tuple xs => xs | _ => []
       let ks : Bytes := match lpk with | .bytes b => b | _ => []
+      if sc.strict && !((match lpn with | .tuple _ => true | _ => false) &&
+                        (match lpk with | .bytes _ => true | _ => false) && ks.all kindOK) then throw .badData else
       let tagged := ns.zip ks
       -- Objects/codeobject.c: co_varnames = locals, co_cellvars = cells (incl. local cells), co_freevars = frees
       let vs := tagged.filterMap fun (n, k) => if k &&& 0x20 ≠ 0 then some n else none
@@ -233,13 +260,14 @@ def code (e : Nat) (ver : List Nat) : Nat → Nat → Bool → P V
         ("co_cellvars", .tuple cs), ("co_filename", filename), ("co_name", name), ("co_qualname", qualname),
         ("co_firstlineno", .int first), ("co_linetable", lt), ("co_exceptiontable", et)]) slot
     else do
-      let varnames ← if ge 1 3 then obj e ver fuel depth else pure (.tuple [])
+      let varnames ← if ge 1 3 then obj sc e ver fuel depth (ge 3 0) else pure (.tuple [])
+      if sc.strict && ge 3 0 && !(match varnames with | .tuple xs => xs.all isStrV | _ => false) then throw .badData else do
       let (freevars, cellvars) ← if ge 2 1 then do
-          let f ← obj e ver fuel depth; let cl ← obj e ver fuel depth; pure (f, cl) else pure (V.tuple [], V.tuple [])
-      let filename ← obj e ver fuel depth
-      let name ← obj e ver fuel depth
+          let f ← obj sc e ver fuel depth false; let cl ← obj sc e ver fuel depth false; pure (f, cl) else pure (V.tuple [], V.tuple [])
+      let filename ← obj sc e ver fuel depth false
+      let name ← obj sc e ver fuel depth false
       let (first, lt) ← if ge 1 5 then do
-          let fl ← int_; let l ← obj e ver fuel depth; pure (fl, l) else pure ((-1 : Int), V.bytes [])
+          let fl ← int_; let l ← obj sc e ver fuel depth false; pure (fl, l) else pure ((-1 : Int), V.bytes [])
       insert (.code [("co_argcount", .int argcount), ("co_posonlyargcount", posonly), ("co_kwonlyargcount", .int kwonly),
         ("co_nlocals", .int nlocals), ("co_stacksize", .int stacksize), ("co_flags", .int flags), ("co_code", co),
         ("co_consts", consts), ("co_names", names), ("co_varnames", varnames), ("co_freevars", freevars),
@@ -249,33 +277,36 @@ end
 
 /-- marshal.loads for the given producing version: value and unread remainder -/
 def loads (ver : List Nat) (data : Bytes) : Except PErr (V × Bytes) :=
-  match (obj (era ver) ver (2 * data.length + 4) 0).run { inp := data, refs := [], strs := [] } with
+  match (obj cpython (era ver) ver (2 * data.length + 4) 0 false).run { inp := data, refs := [], strs := [] } with
   | .ok (v, s) => .ok (v, s.inp)
   | .error e => .error e
 
-/- `port2`: what a Python 3 host holding xdis's result should contain for a producer's value:
-   Python 2 `str` (here `.bytes`) becomes text when it is valid UTF-8, except the fields
-   that are byte strings by nature (co_code, the line table) -/
+/- `portB bfs`: what a Python 3 host holding xdis's result should contain for a value a Python 2
+   wrote: a Python 2 `str` (here `.bytes`) becomes text when it is valid UTF-8 and `bfs` is false
+   (bfs = "bytes for s"); the fields that are byte strings by nature (co_code, the line table)
+   are read with bfs = true, every other field of a code object with bfs = false -/
 mutual
-def port2 : V → V
-  | .bytes b => compatStr b
-  | .tuple xs => .tuple (port2List xs)
-  | .list xs => .list (port2List xs)
-  | .set xs => .set (port2List xs)
-  | .fset xs => .fset (port2List xs)
-  | .dict kvs => .dict (port2KVs kvs)
-  | .code fs => .code (port2Fields fs)
-  | v => v
-def port2List : List V → List V
+def portB : Bool → V → V
+  | bfs, .bytes b => if bfs then .bytes b else compatStr b
+  | bfs, .tuple xs => .tuple (portBList bfs xs)
+  | bfs, .list xs => .list (portBList bfs xs)
+  | bfs, .set xs => .set (portBList bfs xs)
+  | bfs, .fset xs => .fset (portBList bfs xs)
+  | bfs, .dict kvs => .dict (portBKVs bfs kvs)
+  | _, .code fs => .code (portBFields fs)
+  | _, v => v
+def portBList : Bool → List V → List V
+  | _, [] => []
+  | bfs, x :: xs => portB bfs x :: portBList bfs xs
+def portBKVs : Bool → List (V × V) → List (V × V)
+  | _, [] => []
+  | bfs, (k, v) :: rest => (portB bfs k, portB bfs v) :: portBKVs bfs rest
+def portBFields : List (String × V) → List (String × V)
   | [] => []
-  | x :: xs => port2 x :: port2List xs
-def port2KVs : List (V × V) → List (V × V)
-  | [] => []
-  | (k, v) :: rest => (port2 k, port2 v) :: port2KVs rest
-def port2Fields : List (String × V) → List (String × V)
-  | [] => []
-  | (n, v) :: rest => (n, if n == "co_code" || n == "co_linetable" then v else port2 v) :: port2Fields rest
+  | (n, v) :: rest => (n, portB (n == "co_code" || n == "co_linetable") v) :: portBFields rest
 end
+
+def port2 (v : V) : V := portB false v
 
 def port (ver : List Nat) (v : V) : V := if verGeL ver 3 0 then v else port2 v
 
